@@ -193,6 +193,22 @@ fn corrupt_value(kind: &str, v: u128, m: u128, seed: u64) -> Option<u128> {
                 m - v
             }
         },
+        // values that differ from the cell by a small constant, a multiple of a small constant or a power of two
+        "two" => (v + 2) % m,
+        "dec" => (v + m - 1) % m,
+        "p32" => (v + (1u128 << 32)) % m,
+        "dbl" => {
+            if v == 0 {
+                3
+            } else {
+                let d = (v % m + v % m) % m;
+                if d == v {
+                    (v + 1) % m
+                } else {
+                    d
+                }
+            }
+        },
         "rnd" => {
             let mut r = Rng::new(seed ^ 0xc0de_c0de);
             let mut x = r.u128() % m;
@@ -276,9 +292,20 @@ fn exec_cell(t: &[&str]) -> Outcome {
 }
 
 fn exec_auxcell(t: &[&str]) -> Outcome {
-    if t.len() != 7 {
+    if t.len() != 7 && t.len() != 8 {
         return Outcome::ok("bad-op");
     }
+    // optional corruption mode: one (default) | ext (extension coordinates only) | two | p32 | dec | scale (the
+    // whole column doubled)
+    let mode: u8 = match t.get(7).copied() {
+        None | Some("one") => 0,
+        Some("ext") => 1,
+        Some("two") => 2,
+        Some("p32") => 3,
+        Some("dec") => 4,
+        Some("scale") => 5,
+        _ => return Outcome::ok("bad-op"),
+    };
     let c = match parse_cfg(&t[..5]) {
         Ok(c) => c,
         Err(e) => return Outcome::ok(format!("bad-op:{}", e.split(' ').next().unwrap_or(""))),
@@ -295,7 +322,9 @@ fn exec_auxcell(t: &[&str]) -> Outcome {
         o.out = format!("gen-invalid:{}", v);
         return o.fail("c02.harness.gen-invalid", format!("generated trace violates {}", v));
     }
+    set_aux_mode(mode);
     let (r, aux, d) = run(&c, &trace, Some(&pubs0), Some((col, step)), &pubs0);
+    set_aux_mode(0);
     let reference = match aux {
         Some(v) => v,
         None => match r {
@@ -396,9 +425,75 @@ fn exec_stmt(t: &[&str]) -> Outcome {
             site = "c02.pubinput.accepted";
             if pert[1] == "p" {
                 vpubs.push(1);
+            } else if pert[1] == "z" {
+                vpubs.push(0);
+            } else if pert[1] == "d" {
+                match vpubs.last().copied() {
+                    Some(l) => vpubs.push(l),
+                    None => return Outcome::ok("bad-op"),
+                }
+            } else if pert[1] == "f" {
+                // the first value dropped: every other value moves one place
+                if vpubs.is_empty() {
+                    return Outcome::ok("bad-op");
+                }
+                vpubs.remove(0);
             } else if vpubs.pop().is_none() {
                 return Outcome::ok("bad-op");
             }
+        },
+        // the order of the values: two different values exchanged / the list rotated
+        "pubswap" if pert.len() == 3 => {
+            site = "c02.pubinput.accepted";
+            let (i, j) = match (pert[1].parse::<usize>(), pert[2].parse::<usize>()) {
+                (Ok(i), Ok(j)) if i < vpubs.len() && j < vpubs.len() => (i, j),
+                _ => return Outcome::ok("bad-op"),
+            };
+            vpubs.swap(i, j);
+            changed = vpubs != pubs0;
+        },
+        "pubrot" if pert.len() == 1 => {
+            site = "c02.pubinput.accepted";
+            if vpubs.len() < 2 {
+                return Outcome::ok("bad-op");
+            }
+            vpubs.rotate_left(1);
+            changed = vpubs != pubs0;
+        },
+        // option sets with several members: with the proof's own set among them (must accept), without it
+        "accset" if pert.len() == 2 => {
+            site = "c02.option.accepted";
+            let mut others = vec![];
+            for (w, v) in [("q", c.opts.queries % 255 + 1), ("g", (c.opts.grinding as usize + 1) % 33), ("r", if c.opts.remainder == 7 { 3 } else { 7 }), ("b", if c.opts.blowup == 8 { 16 } else { 8 })] {
+                if let Some(n) = opt_with(&c.opts, w, v) {
+                    if n.accepted() && n != c.opts {
+                        others.push(n.to_options());
+                    }
+                }
+            }
+            if others.len() < 2 {
+                return Outcome::ok("bad-op");
+            }
+            if pert[1] == "with" {
+                let k = others.len() / 2;
+                others.insert(k, c.opts.to_options());
+                changed = false;
+            } else if pert[1] != "without" {
+                return Outcome::ok("bad-op");
+            }
+            acceptable = AcceptableOptions::OptionSet(others);
+        },
+        "minprov" if pert.len() == 2 => {
+            site = "c02.option.accepted";
+            let bits = match pert[1].parse::<u32>() {
+                Ok(b) => b,
+                _ => return Outcome::ok("bad-op"),
+            };
+            let bound = (c.opts.queries as u32) * c.opts.blowup.ilog2() + c.opts.grinding;
+            if bits <= bound {
+                return Outcome::ok("bad-op");
+            }
+            acceptable = AcceptableOptions::MinProvenSecurity(bits);
         },
         "ctxlen" | "ctxwidth" | "ctxmeta" if pert.len() == 2 => {
             site = "c02.shape.accepted";
@@ -520,8 +615,17 @@ fn exec_stmt(t: &[&str]) -> Outcome {
             }
         },
     };
+    // a proof of a constant trace (every column constant) verifies at every query position under every
+    // transcript: perturbations that change only the coin seed (metadata, structure-preserving options, public
+    // values the AIR does not read) cannot make it fail; the statement as the AIR reads it is still true
+    let constant_trace = trace.iter().all(|col| col.iter().all(|v| *v == col[0]));
+    let norm_pubs: Vec<u128> = (0..c.desc.num_pub_inputs()).map(|i| vpubs.get(i).copied().unwrap_or(0)).collect();
+    let transcript_only = constant_trace && vfield == c.field && is_valid(&vdesc, c.field, &trace, &norm_pubs).is_ok();
     match (&r, changed) {
         _ if still_valid => {},
+        (Run::Acc, true) if transcript_only => {
+            o = o.fail(format!("{}.constant-trace", site), format!("constant trace: the proof was accepted for the perturbed statement `{}`", t[5]))
+        },
         (Run::Acc, true) => o = o.fail(site, format!("the proof was accepted for the perturbed statement `{}`", t[5])),
         (Run::Rej(k), false) => o = o.fail("c02.rejected-valid", format!("the unperturbed statement was rejected: {}", k)),
         (Run::VerifyPanic(f), false) => o = o.fail("c02.rejected-valid", format!("the verifier panicked on the unperturbed statement at {}", f)),
@@ -705,6 +809,186 @@ fn family(n: usize) -> Vec<AirDesc> {
     v.into_iter().filter(|d| d.validate().is_ok()).collect()
 }
 
+/// second hand-made family (generator hardening): parameter pairs that the code distinguishes and that must
+/// not always be equal, and structured data
+fn family2(n: usize, field: FieldId) -> Vec<AirDesc> {
+    let mut v = vec![];
+    let base = |width: usize, cols: Vec<ColGen>, constraints: Vec<Constraint>, assertions: Vec<AssertDesc>| AirDesc {
+        width,
+        trace_len: n,
+        exemptions: 1,
+        tail_junk: false,
+        periodic: vec![],
+        cols,
+        constraints,
+        assertions,
+        aux: None,
+    };
+    let r = |i: usize| Expr::Rand(i);
+    let a = |i: usize| Expr::AuxCur(i);
+    let lin0 = Expr::add(c(0), k(3));
+    // ---- number of auxiliary constraints above / equal to / below the number of main constraints; the LAST
+    //      auxiliary constraint is the only one that reads the last auxiliary column
+    // F1: 1 main, 3 aux
+    let step = Expr::mul(a(0), Expr::add(c(0), r(0)));
+    let img1 = Expr::add(Expr::mul(r(1), c(1)), r(0));
+    let img2 = Expr::add(Expr::mul(a(1), c(0)), r(1));
+    let mut f1 = base(
+        2,
+        vec![ColGen::Step { init: None, expr: lin0.clone() }, ColGen::Rand],
+        vec![cons(&[], n, Expr::sub(nx(0), lin0.clone()))],
+        vec![AssertDesc::single(0, 0)],
+    );
+    f1.aux = Some(AuxDesc {
+        width: 3,
+        num_rands: 2,
+        lagrange: false,
+        cols: vec![AuxGen::Acc { init: k(1), step: step.clone() }, AuxGen::Fn(img1.clone()), AuxGen::Fn(img2.clone())],
+        constraints: vec![
+            cons(&[], n, Expr::sub(Expr::AuxNxt(0), step.clone())),
+            cons(&[], n, Expr::sub(a(1), img1.clone())),
+            cons(&[], n, Expr::sub(a(2), img2.clone())),
+        ],
+        assertions: vec![AuxAssertDesc { a: AssertDesc::single(0, 0), value: k(1) }],
+    });
+    v.push(f1.clone());
+    // F2: 2 main, 2 aux
+    let f0e = c(1);
+    let f1e = Expr::add(c(0), c(1));
+    let mut f2 = base(
+        2,
+        vec![ColGen::Step { init: Some(1), expr: f0e.clone() }, ColGen::Step { init: Some(2), expr: f1e.clone() }],
+        vec![cons(&[], n, Expr::sub(nx(0), f0e)), cons(&[], n, Expr::sub(nx(1), f1e))],
+        vec![AssertDesc::single(0, 0), AssertDesc::single(1, n - 1)],
+    );
+    f2.aux = Some(AuxDesc {
+        width: 2,
+        num_rands: 2,
+        lagrange: false,
+        cols: vec![AuxGen::Acc { init: k(1), step: step.clone() }, AuxGen::Fn(img1.clone())],
+        constraints: vec![cons(&[], n, Expr::sub(Expr::AuxNxt(0), step.clone())), cons(&[], n, Expr::sub(a(1), img1.clone()))],
+        assertions: vec![AuxAssertDesc { a: AssertDesc::single(0, 0), value: k(1) }],
+    });
+    v.push(f2);
+    // F3: 3 main, 1 aux (the only and last auxiliary constraint)
+    let m1 = Expr::add(Expr::mul(c(1), c(0)), k(1));
+    let mut f3 = base(
+        3,
+        vec![ColGen::Step { init: None, expr: lin0.clone() }, ColGen::Step { init: None, expr: m1.clone() }, ColGen::Counter],
+        vec![
+            cons(&[], n, Expr::sub(nx(0), lin0.clone())),
+            cons(&[], n, Expr::sub(nx(1), m1)),
+            cons(&[], n, Expr::sub(nx(2), Expr::add(c(2), k(1)))),
+        ],
+        vec![AssertDesc::single(0, 0), AssertDesc::single(2, n - 1)],
+    );
+    let img3 = Expr::add(Expr::mul(r(0), c(2)), r(1));
+    f3.aux = Some(AuxDesc {
+        width: 1,
+        num_rands: 2,
+        lagrange: false,
+        cols: vec![AuxGen::Fn(img3.clone())],
+        constraints: vec![cons(&[], n, Expr::sub(a(0), img3.clone()))],
+        assertions: vec![AuxAssertDesc { a: AssertDesc::single(0, n - 1), value: Expr::add(Expr::mul(r(0), Expr::Pub(1)), r(1)) }],
+    });
+    v.push(f3);
+    // ---- every assertion kind on the main AND on the auxiliary segment: single (first step, last step, the
+    //      only one of its column), periodic, sequence; once in list order, once in reverse list order
+    let sq = Expr::add(Expr::mul(c(0), c(0)), k(2));
+    for rev in [false, true] {
+        let mut asserts = vec![AssertDesc::single(0, 0), AssertDesc::periodic(1, 1, 2), AssertDesc::sequence(2, 0, 4), AssertDesc::single(0, n - 1)];
+        if rev {
+            asserts.reverse();
+        }
+        // positions of the public values of the periodic and the sequence assertion
+        let (pos_p, pos_q) = if rev { (1 + n / 4, 1) } else { (1, 2) };
+        let mut f4 = base(
+            3,
+            vec![ColGen::Step { init: None, expr: sq.clone() }, ColGen::Cyc(2), ColGen::Counter],
+            vec![cons(&[], n, Expr::sub(nx(0), sq.clone())), cons(&[], n, Expr::sub(nx(2), Expr::add(c(2), k(1))))],
+            asserts,
+        );
+        let i1 = Expr::add(Expr::mul(r(0), c(1)), r(1));
+        let i2 = Expr::add(Expr::mul(r(0), c(2)), r(1));
+        let mut aa = vec![
+            AuxAssertDesc { a: AssertDesc::periodic(0, 1, 2), value: Expr::add(Expr::mul(r(0), Expr::Pub(pos_p)), r(1)) },
+            AuxAssertDesc { a: AssertDesc::sequence(1, 0, 4), value: Expr::add(Expr::mul(r(0), Expr::PubSeq(pos_q)), r(1)) },
+            AuxAssertDesc { a: AssertDesc::single(2, 0), value: k(1) },
+        ];
+        if rev {
+            aa.reverse();
+        }
+        f4.aux = Some(AuxDesc {
+            width: 3,
+            num_rands: 2,
+            lagrange: false,
+            cols: vec![AuxGen::Fn(i1.clone()), AuxGen::Fn(i2.clone()), AuxGen::Acc { init: k(1), step: Expr::mul(a(2), Expr::add(c(0), r(0))) }],
+            constraints: vec![
+                cons(&[], n, Expr::sub(a(0), i1)),
+                cons(&[], n, Expr::sub(a(1), i2)),
+                cons(&[], n, Expr::sub(Expr::AuxNxt(2), Expr::mul(a(2), Expr::add(c(0), r(0))))),
+            ],
+            assertions: aa,
+        });
+        v.push(f4);
+    }
+    // ---- exemptions at the upper bound (degree 1: n/2 + 1; degree 2 and 3: what the degree leaves), junk tail or not
+    for d in [1u32, 2, 3] {
+        let rule = Expr::add(Expr::pow(c(0), d), k(5));
+        for junk in [true, false] {
+            let mut f5 = base(
+                1,
+                vec![ColGen::Step { init: None, expr: rule.clone() }],
+                vec![Constraint { degree: Degree::new(d as usize), expr: Expr::sub(nx(0), rule.clone()) }],
+                vec![AssertDesc::single(0, 0)],
+            );
+            let m = f5.max_exemptions();
+            if m >= 2 {
+                f5.exemptions = m;
+                f5.tail_junk = junk;
+                v.push(f5);
+            }
+        }
+    }
+    // ---- periodic columns with structure: sub-periodic (declared cycle 4, period 2), a selector with a single
+    //      non-zero entry, constant, low degree (degree 1 over a cycle of 8); as a factor and as a summand
+    let low = low_degree_periodic(field, 8, 1, 77 + n as u64);
+    for (p0, p1) in [
+        (vec![3u128, 5, 3, 5], low.clone()),
+        (vec![0u128, 0, 1, 0], vec![7u128, 7]),
+        (vec![1u128, 0, 0, 0, 0, 0, 0, 0], vec![0u128, 0, 0, 9]),
+    ] {
+        let cyc = [p0.len(), p1.len()];
+        let rule = Expr::add(Expr::mul(Expr::Per(0), c(0)), Expr::add(Expr::Per(1), c(1)));
+        let mut f6 = base(
+            2,
+            vec![ColGen::Step { init: None, expr: rule.clone() }, ColGen::Counter],
+            vec![cons(&cyc, n, Expr::sub(nx(0), rule)), cons(&cyc, n, Expr::sub(nx(1), Expr::add(c(1), k(1))))],
+            vec![AssertDesc::single(0, 0), AssertDesc::single(1, 0)],
+        );
+        f6.periodic = vec![p0, p1];
+        v.push(f6);
+    }
+    // ---- constant traces: constant columns, the fixed point 0 of x' = x^3 (position-independent proofs)
+    v.push(base(
+        2,
+        vec![ColGen::Const(Some(7)), ColGen::Step { init: Some(0), expr: Expr::pow(c(1), 3) }],
+        vec![cons(&[], n, Expr::sub(nx(0), c(0))), Constraint { degree: Degree::new(3), expr: Expr::sub(nx(1), Expr::pow(c(1), 3)) }],
+        vec![AssertDesc::periodic(0, 1, n), AssertDesc::single(1, n / 2)],
+    ));
+    // ---- constraint degree exactly blowup + 1 (degree 3 with blowup 2, degree 5 with blowup 4)
+    for d in [3u32, 5] {
+        let rule = Expr::add(Expr::pow(c(0), d), c(1));
+        v.push(base(
+            2,
+            vec![ColGen::Step { init: None, expr: rule.clone() }, ColGen::Const(Some(0))],
+            vec![Constraint { degree: Degree::new(d as usize), expr: Expr::sub(nx(0), rule) }, cons(&[], n, Expr::sub(nx(1), c(1)))],
+            vec![AssertDesc::single(0, 0), AssertDesc::single(1, n - 1)],
+        ));
+    }
+    v.into_iter().filter(|d| d.validate().is_ok()).collect()
+}
+
 fn options_for(d: &AirDesc, field: FieldId, k: usize) -> OptSpec {
     let b = d.min_blowup().max(if k % 3 == 0 { 4 } else { 2 });
     let exts: Vec<u8> = (1..=3u8).filter(|x| field.supports_ext(*x)).collect();
@@ -774,22 +1058,42 @@ fn emit_config(rng: &mut Rng, cfg: &Cfg, all_cells: bool, kinds: &[&str], emit: 
     }
     if let Some(x) = &d.aux {
         for col in 0..x.width {
+            emit(format!("auxcell {} {} 0 scale", ct, col));
             for step in 0..n {
                 if all_cells || steps.contains(&step) {
                     emit(format!("auxcell {} {} {}", ct, col, step));
+                    // differences in the extension coordinates only, by small constants, by a power of two
+                    if kinds.len() > 2 {
+                        for mode in ["ext", "two", "p32", "dec"] {
+                            emit(format!("auxcell {} {} {} {}", ct, col, step, mode));
+                        }
+                    } else {
+                        emit(format!("auxcell {} {} {} {}", ct, col, step, ["ext", "two", "p32", "dec"][(col + step) % 4]));
+                    }
                 }
             }
         }
     }
     // statements
     emit(format!("stmt {} none", ct));
-    for i in 0..pubs.len().min(6) {
-        for kind in ["inc", "rnd", "zero"] {
+    // every single public value (all of them up to 24, then the last one), their order, their count
+    for i in 0..pubs.len().min(24) {
+        for kind in ["inc", "rnd", "zero", "dec", "p32"] {
             emit(format!("stmt {} pub:{}:{}", ct, i, kind));
         }
     }
-    if pubs.len() > 6 {
+    if pubs.len() > 24 {
         emit(format!("stmt {} pub:{}:inc", ct, pubs.len() - 1));
+    }
+    for i in 0..pubs.len().min(8) {
+        for j in i + 1..pubs.len().min(8) {
+            if pubs[i] != pubs[j] && (j == i + 1 || j == pubs.len().min(8) - 1) {
+                emit(format!("stmt {} pubswap:{}:{}", ct, i, j));
+            }
+        }
+    }
+    for p in ["pubrot", "publen:z", "publen:d", "publen:f", "accset:with", "accset:without", "minprov:4000"] {
+        emit(format!("stmt {} {}", ct, p));
     }
     for p in ["publen:p", "publen:m", "ctxlen:x2", "ctxlen:d2", "ctxwidth:p", "ctxwidth:m", "ctxmeta:00", "ctxmeta:01ff", "minsec:4000"] {
         emit(format!("stmt {} {}", ct, p));
@@ -853,6 +1157,52 @@ impl Prop for P {
                 }
             }
         }
+        // second family: #aux vs #main constraints, all assertion kinds on both segments, exemptions at the upper
+        // bound, structured periodic columns, degree = blowup + 1; LDE blowup equal to AND above the ce blowup
+        let lens2: &[usize] = if quick { &[8] } else { &[8, 16, 32] };
+        for &len in lens2 {
+            for field in FieldId::ALL {
+                let hashes = HashId::for_field(field);
+                for (di, d) in family2(len, field).into_iter().enumerate() {
+                    let ce = d.min_blowup();
+                    let blowups: Vec<usize> = if quick { vec![ce, 2 * ce] } else { vec![ce, 2 * ce, 4 * ce] };
+                    for (bi, b) in blowups.into_iter().enumerate() {
+                        if b > 128 || (quick && bi == 1 && (di + len) % 2 == 1 && field != FieldId::F64) {
+                            continue;
+                        }
+                        k += 1;
+                        let mut opts = options_for(&d, field, k);
+                        opts.blowup = b;
+                        // keep the schedule well-formed for the chosen blowup
+                        if !(opts.accepted() && {
+                            let lde = len * b;
+                            let mut dsz = lde;
+                            let maxr = (opts.remainder + 1) * b;
+                            let mut ok = true;
+                            while dsz > maxr {
+                                dsz /= opts.folding;
+                                if dsz < 2 {
+                                    ok = false;
+                                    break;
+                                }
+                            }
+                            ok && dsz / b >= 1 && opts.queries < lde
+                        }) {
+                            opts = OptSpec::new(3.min(len * b - 1), b, 0, opts.ext, 2, 1);
+                        }
+                        // a constant trace with a single query: the opening has the same shape at every position,
+                        // the proof is position-independent (recorded `.constant-trace` findings)
+                        let tr = gen_trace(&d, field, 2000 + k as u64);
+                        if bi == 0 && tr.iter().all(|col| col.iter().all(|v| *v == col[0])) {
+                            opts.queries = 1;
+                        }
+                        let cfg = Cfg { field, hash: hashes[k % hashes.len()], opts, seed: 2000 + k as u64, desc: Arc::new(d.clone()) };
+                        let kinds: &[&str] = if bi == 0 { &["inc", "rnd", "zero", "neg", "two", "dec", "p32", "dbl"] } else { &["inc", "dbl"] };
+                        emit_config(rng, &cfg, true, kinds, emit);
+                    }
+                }
+            }
+        }
         // random descriptions of the shared family
         for i in 0..nrand {
             let field = *rng.pick(&FieldId::ALL);
@@ -868,7 +1218,7 @@ impl Prop for P {
                 degenerate: i % 10 == 0,
                 sequences: true,
             };
-            let d = random_desc(rng, &bud);
+            let d = random_desc_for(rng, &bud, field);
             let opts = options_for(&d, field, rng.below(1000) as usize);
             let cfg = Cfg { field, hash, opts, seed: rng.u64() % 1_000_000, desc: Arc::new(d) };
             emit_config(rng, &cfg, cfg.desc.trace_len <= 8 || !quick, &["inc", "rnd"], emit);
